@@ -33,7 +33,7 @@ def run_one(sid):
                            capture_output=True, text=True)
         if p.returncode != 0:
             return {"id": sid, "property": prop, "applied": False, "detail": (p.stdout + p.stderr)[-400:]}
-        env = dict(os.environ, VERIF_REPO=scratch)
+        env = dict(os.environ, VERIF_REPO=scratch, VERIF_EVIDENCE_DIR=os.path.join(scratch, "evidence"))
         env.update(meta.get("check_env", {}))
         t = time.time()
         tier = meta.get("tier", "quick")
